@@ -1,6 +1,7 @@
 package main
 
 import (
+	"fmt"
 	"go/token"
 	"strings"
 
@@ -179,11 +180,34 @@ func runC17(c *Ctx) {
 			// return transport.DnsConn / transport.NetConn and call DialContext with a constant network
 			eachInstrDeep(nu, func(a *ssa.Function, in ssa.Instruction) {
 				ci, ok := in.(*ssa.Call)
-				if !ok || a == nu || a.Parent() == nil || callName(ci) != "(*net.Dialer).DialContext" {
+				if !ok || a == nu || a.Parent() == nil {
 					return
 				}
-				net, _ := constString(ci.Call.Args[2])
-				addrRoots := tr.originsNH(ci.Call.Args[3])
+				netV, addrV := ssa.Value(nil), ssa.Value(nil)
+				if callName(ci) == "(*net.Dialer).DialContext" {
+					netV, addrV = ci.Call.Args[2], ci.Call.Args[3]
+				} else if h := ci.Call.StaticCallee(); isNewHelper(h) && len(h.Params) == len(ci.Call.Args) {
+					// a NEW dial helper of the closures: it dials the network and the address it is handed
+					eachInstr(h, func(y ssa.Instruction) {
+						dc, ok := y.(*ssa.Call)
+						if !ok || callName(dc) != "(*net.Dialer).DialContext" {
+							return
+						}
+						for i, prm := range h.Params {
+							if dc.Call.Args[2] == ssa.Value(prm) {
+								netV = ci.Call.Args[i]
+							}
+							if dc.Call.Args[3] == ssa.Value(prm) {
+								addrV = ci.Call.Args[i]
+							}
+						}
+					})
+				}
+				if netV == nil || addrV == nil {
+					return
+				}
+				net, _ := constString(netV)
+				addrRoots := tr.originsNH(addrV)
 				// restrict to closures whose address is a captured local computed in NewUpstream itself (the udp case)
 				isCase := false
 				for _, r := range addrRoots {
@@ -282,4 +306,37 @@ func checkDatagramReadBuffer(c *Ctx) {
 		}
 	})
 	c.check(good, "rx-buffer", rm.Pos(), "datagrams are read into the whole pooled buffer of the maximum message size", why)
+	// the reader drops exactly what cannot be a DNS message: every comparison of the received length with a constant is
+	// "shorter than the 12-byte header" (a header-only reply — TC, FORMERR, REFUSED without the question — is a reply)
+	okLen, nCmp := true, 0
+	whyLen := ""
+	eachInstr(rm, func(in ssa.Instruction) {
+		bo, ok := in.(*ssa.BinOp)
+		if !ok {
+			return
+		}
+		x, y, op := bo.X, bo.Y, bo.Op
+		if _, isC := constInt(x); isC {
+			x, y, op = y, x, flipOp(op)
+		}
+		k, isC := constInt(y)
+		if !isC {
+			return
+		}
+		ex, isEx := x.(*ssa.Extract)
+		if !isEx || ex.Index != 0 {
+			return
+		}
+		if cl, isCall := ex.Tuple.(*ssa.Call); !isCall || !cl.Call.IsInvoke() || cl.Call.Method.Name() != "Read" {
+			return
+		}
+		nCmp++
+		switch {
+		case op == token.LSS && k == 12, op == token.LEQ && k == 11, op == token.GEQ && k == 12, op == token.GTR && k == 11:
+		default:
+			okLen, whyLen = false, fmt.Sprintf("n %s %d", op, k)
+		}
+	})
+	c.check(okLen && nCmp > 0, "rx-min-length", rm.Pos(), "exactly the datagrams shorter than a DNS header are discarded",
+		"the datagram reader compares the received length with something else than the 12-byte header size ("+whyLen+"): a header-only reply (TC without the question, FORMERR, REFUSED) is discarded like junk — no TCP retry, the caller waits for its deadline although the server answered")
 }
